@@ -370,7 +370,7 @@ def main(prop='C10'):
         trees = trees[::max(1, len(trees) // int(lim))]
     items = [{'idx': i, 'tree': e} for i, e in enumerate(trees)]
     parts = parallel(work_a, items)
-    stats = {'queries': 0, 'unsat': 0, 'sat': 0, 'unknown': 0, 'solver_s': 0.0}
+    stats = dict.fromkeys(zq.STATS, 0)
     ra = []
     for p in parts:
         ra += p['results']
